@@ -10,7 +10,8 @@
 (*   - commands leaving at IntTime(D) + o for the offsets o in OffsDie     *)
 (*     (die of the interrupt) and OffsIgn (ignore it), and at              *)
 (*     KillTime(D) + o for o in OffsKill (ignore it): the sweep across     *)
-(*     "exits at about the moment the deadline fires" and across the kill. *)
+(*     "exits at about the moment the deadline fires" and across the kill, *)
+(*   - scripts that start late (second script of a sequential RunT call).  *)
 (* Each case carries the class the contract assigns to it under the        *)
 (* nominal slack SNom; TLC checks that every D has every class and that a  *)
 (* case labelled early / blocked keeps the margin M from the boundary.     *)
@@ -30,14 +31,21 @@ VARIABLE c
 Lab(D, x) == IF x = Never THEN "blocked"
              ELSE IF x >= IntTime(D) + SNom + M THEN "late"        \* blocked, but leaves on its own later
              ELSE IF x + M <= IntTime(D) THEN "early" ELSE "boundary"
-Mk(D, x, oi, ok, ng) == [label |-> Lab(D, x), D |-> D, x |-> x, onint |-> oi, ok |-> ok, neg |-> ng]
+Mk2(D, x, oi, ok, ng, af) == [label |-> Lab(D, x), D |-> D, x |-> x, onint |-> oi, ok |-> ok, neg |-> ng, after |-> af]
+Mk(D, x, oi, ok, ng) == Mk2(D, x, oi, ok, ng, 0)
 
 Forever(D) == {Mk(D, Never, oi, TRUE, ng) : oi \in {"die", "ignore"}, ng \in BOOLEAN} \cup {Mk(D, Never, "die", FALSE, FALSE)}
 Earlies(D) == {Mk(D, x, "die", ok, ng) : x \in {y \in EarlyXs : y + M + 20 <= IntTime(D)}, ok \in BOOLEAN, ng \in BOOLEAN}
 SweepDie(D) == {Mk(D, IntTime(D) + o, "die", ok, FALSE) : o \in {p \in OffsDie : IntTime(D) + p >= 1}, ok \in BOOLEAN}
 SweepIgn(D) == {Mk(D, IntTime(D) + o, "ignore", TRUE, FALSE) : o \in {p \in OffsIgn : IntTime(D) + p >= 1}}
 SweepKill(D) == {Mk(D, KillTime(D) + o, "ignore", TRUE, ng) : o \in OffsKill, ng \in BOOLEAN}
-Cases(D) == Forever(D) \cup Earlies(D) \cup SweepDie(D) \cup SweepIgn(D) \cup SweepKill(D)
+\* scripts that start late: `after` > 0 = the script is the second one of a RunT call whose T runs subtests one after the
+\* other (cmd/testscript's runner, any T whose Parallel is a no-op); the first script leaves on its own at `after`, a third
+\* of the way to the interrupt.  All times still count from the RunT call: the deadline is RunT's, not the script's.
+After(D) == IntTime(D) \div 3
+Late(D) == {Mk2(D, Never, oi, TRUE, FALSE, After(D)) : oi \in {"die", "ignore"}}
+             \cup {Mk2(D, x, "die", TRUE, FALSE, After(D)) : x \in {y \in {2 * After(D)} : y + M + 20 <= IntTime(D)}}
+Cases(D) == Forever(D) \cup Earlies(D) \cup SweepDie(D) \cup SweepIgn(D) \cup SweepKill(D) \cup Late(D)
 AllCases == UNION {Cases(D) : D \in Ds}
 
 Init == c \in AllCases /\ PrintT(<<"EMIT", ToJson(c)>>)
